@@ -60,6 +60,17 @@ CLAIMED["C12"] = dict(
     technique="contract-based deductive verification: exact limit contracts + amplification-site obligations over the real AST, z3; AST dominance analysis",
     design="DESIGN.md §3 C12")
 
+CLAIMED["C06"] = dict(
+    text="The relational statement is reduced to per-function effect/qualifier obligations decided on the real AST for every function "
+         "of the parsing package: no order-exposing iteration of a set reaches a value, observers of result objects store nothing into "
+         "objects reachable from self, extractors only read their input buffer, nondeterministic primitives (clock, id(), secrets) are "
+         "contained; plus a bounded native validation of the purity assumption (fixtures, two fresh processes, two hash seeds).",
+    note="Fresh-process equality follows only under the assumption that third-party parsers are deterministic functions of the bytes "
+         "(validated boundedly, which already exposed two defects, now fixed); aliasing tracked by names rooted at self; decided by AST "
+         "dataflow analysis, not SMT.",
+    technique="contract-based verification of frame / effect / order-qualifier obligations per function by AST dataflow analysis; bounded native validation of assumed purity",
+    design="DESIGN.md §3 C06")
+
 PENDING = {}
 
 ALL = [f"C{i:02d}" for i in range(1, 21)]
